@@ -46,6 +46,8 @@ def run_property(chk: Check, pid: str, props_module: str, theorems: List[str], m
 
     # ---- correspondence: model vs implementation on every history --------------
     cases = []
+    dist_order: List[str] = []
+    case_idx: List[int] = []     # cases[j] is history case_idx[j] (impl-only histories are not evaluated in the model)
     dist: Dict[str, int] = {}
     nontrivial = set()
     nframes = 0
@@ -54,7 +56,10 @@ def run_property(chk: Check, pid: str, props_module: str, theorems: List[str], m
             chk.broken_obligation("harness failure running the manager", r["harness_error"][-600:])
             return
         enc = C.encode_obs(r, h.it)
-        cases.append(f"({h.coq_input()}, {C.zl(enc)})")
+        if not getattr(h, "impl_only", False):
+            cases.append(f"({h.coq_input()}, {C.zl(enc)})")
+            case_idx.append(len(dist_order))
+        dist_order.append(k)
         dist[k] = dist.get(k, 0) + 1
         if r["crash"]:
             dist["crashed"] = dist.get("crashed", 0) + 1
@@ -64,11 +69,12 @@ def run_property(chk: Check, pid: str, props_module: str, theorems: List[str], m
             nontrivial.add(hash(tuple(enc)))
     if model_ok:
         bad, log = C.FAM.eval_cases(C.HEADER, cases, per_file=40)
+        bad = [case_idx[b] if b >= 0 else b for b in bad]
     else:
         bad, log = [], "(model unavailable: correspondence skipped, failing-input search only)"
         chk.note(log)
     chk.cov["evaluations"] = len(hs)
-    chk.cov["traces_validated_against_impl"] = (len(hs) - len([b for b in bad if b >= 0])) if model_ok else 0
+    chk.cov["traces_validated_against_impl"] = (len(cases) - len([b for b in bad if b >= 0])) if model_ok else 0
     chk.cov["distinct_nontrivial"] = len(nontrivial)
     chk.cov["frames_written_by_impl"] = nframes
     chk.cov["input_distribution"] = dist
